@@ -19,7 +19,7 @@ import traceback
 ROOT = os.path.dirname(os.path.dirname(os.path.abspath(__file__)))
 REPO = os.environ.get("VERIF_REPO", "/repo")
 # checks run against a scratch copy (mutation self-test) must not overwrite the evidence about /repo itself
-OUT = ROOT if not os.environ.get("VERIF_REPO") else os.path.join(ROOT, ".scratch")
+OUT = ROOT if not os.environ.get("VERIF_REPO") else os.path.join(ROOT, ".scratch", os.path.basename(os.environ["VERIF_REPO"].rstrip("/")) or "copy")
 
 
 # ---------------------------------------------------------------------------------------------------------
@@ -45,6 +45,9 @@ def prove(ob, func, hyp, goal, kind="deciding", timeout_s=10.0, model_vars=None,
     from . import solve as _solve
     from .sym import sqrt_axioms, div_axioms, pow_axioms
     hyp, goal = z3.simplify(hyp), z3.simplify(goal)
+    from . import tensor as _tensor
+    if _tensor.COMPILE_MODE_USED:
+        model_vars = dict(model_vars or {}, is_compiling=z3.Bool("is_compiling"))
     ax = sqrt_axioms(hyp, goal) + div_axioms(hyp, goal) + pow_axioms(hyp, goal)
     if ax:
         hyp = z3.And(hyp, *ax)
@@ -257,6 +260,13 @@ def run_check(modname, tier="quick", seed=0, update_ledger=False, only_case=None
     retried = []
     idxs = [i for i, o in enumerate(outs) if _shaky(o) and not any(r["status"] == "violated" and r["kind"] == "deciding" for r in o["results"])
             and not any(r["ob"].startswith("case-wall-clock-budget") for r in o["results"])]
+    # the retry exists for load-related flakiness (a few cases); when a deciding violation is already established the exit code cannot
+    # change, and when many cases are undecided the cause is systemic (e.g. an operation without a contract stub): re-running
+    # everything with tripled budgets would only burn hours — at most RETRY_CAP cases are retried, the rest stay undecided
+    RETRY_CAP = int(os.environ.get("VERIF_RETRY_CAP", "8"))
+    if any(r["status"] == "violated" and r["kind"] == "deciding" for o in outs for r in o["results"]):
+        idxs = []
+    idxs = idxs[:RETRY_CAP]
     if idxs:
         os.environ["VERIF_TIMEOUT_SCALE"] = "3"
         try:
